@@ -111,10 +111,6 @@ MUTANTS = [
      "        element_uuid = UUIDCodec.decode(raw_bytes, get_by_uuid=get_by_uuid)",
      "        element_uuid = UUIDCodec.decode(raw_bytes)",
      ["C07", "C09"]),
-    ("bool_codec_nonzero_is_false", "serialization.py",
-     'return bool(raw_bytes.read(1) != b"\\x00")',
-     'return bool(raw_bytes.read(1) == b"\\x01")',
-     ["C08"]),
     ("variant_index_4_bytes", "serialization.py",
      "        out.write(variant.index.to_bytes(8, byteorder=\"little\"))",
      "        out.write(variant.index.to_bytes(8, byteorder=\"little\") if variant.index < 2 else variant.index.to_bytes(8, byteorder=\"big\"))",
@@ -155,7 +151,7 @@ def main():
             continue
         scratch = tempfile.mkdtemp(prefix="gsim-mut-")
         try:
-            for sub in ("python", "proto"):
+            for sub in ("python", "proto", "java"):
                 shutil.copytree(os.path.join("/repo", sub), os.path.join(scratch, sub))
             shutil.copy("/repo/version.txt", scratch)
             if name == "auxdata_keeps_raw_after_read":
